@@ -47,6 +47,9 @@ type Type struct {
 	Fields []*Type // Tuple members
 	Name   string  // name as a tuple member / top-level parameter ("" = unnamed)
 	Alias  bool    // spell uint256/int256/fixed128x18/ufixed128x18 as uint/int/fixed/ufixed in the ABI JSON
+	// Override is used only by CoqCval for hand-built ComponentValue trees whose children do not
+	// match the component: the type of child i (printed with its own component) regardless of Kind.
+	Override []*Type
 }
 
 func U(m int) *Type            { return &Type{Kind: Uint, M: m} }
